@@ -13,33 +13,33 @@ namespace LlgoVerif.Chan
 /-! ## safety, for all interleavings -/
 
 /-- a buffered channel never holds more than its capacity (and an unbuffered one holds nothing) -/
-theorem cap_bound {caps : List Nat} {progs : List (List Op)} {s : State}
-    (h : Reachable (init caps progs) s) (c : Cid) : (s.chan c).len ≤ (s.chan c).cap :=
+theorem cap_bound {cfg : Cfg} {caps : List Nat} {progs : List (List Op)} {s : State}
+    (h : Reachable (init cfg caps progs) s) (c : Cid) : (s.chan c).len ≤ (s.chan c).cap :=
   (reachable_ginv h c).lenle
 
 /-- FIFO, no duplication, no loss inside a buffered channel: the values committed by senders are, in order,
     the values already handed to receivers followed by the present ring contents -/
-theorem fifo_buffered {caps : List Nat} {progs : List (List Op)} {s : State}
-    (h : Reachable (init caps progs) s) (c : Cid) (hc : 0 < (s.chan c).cap) :
+theorem fifo_buffered {cfg : Cfg} {caps : List Nat} {progs : List (List Op)} {s : State}
+    (h : Reachable (init cfg caps progs) s) (c : Cid) (hc : 0 < (s.chan c).cap) :
     (s.chan c).sent = (s.chan c).recvd ++ (s.chan c).contents :=
   (reachable_ginv h c).fifo hc
 
 /-- non-vacuity: a reachable state of a buffered channel with history `sent = [5, 6]`, `recvd = [5]`, ring `[6]` -/
-example : ∃ s, Reachable (init [2] [[.send 0 5, .send 0 6], [.recv 0]]) s ∧ 0 < (s.chan 0).cap ∧
+example : ∃ s, Reachable (init .current [2] [[.send 0 5, .send 0 6], [.recv 0]]) s ∧ 0 < (s.chan 0).cap ∧
     (s.chan 0).sent = [5, 6] ∧ (s.chan 0).recvd = [5] ∧ (s.chan 0).contents = [6] := by
-  refine ⟨(runSched (init [2] [[.send 0 5, .send 0 6], [.recv 0]])
-      [.step 0, .step 0, .step 0, .step 1, .step 1]).getD (init [] []), ?_, by decide, by decide, by decide, by decide⟩
+  refine ⟨(runSched (init .current [2] [[.send 0 5, .send 0 6], [.recv 0]])
+      [.step 0, .step 0, .step 0, .step 1, .step 1]).getD (init .current [] []), ?_, by decide, by decide, by decide, by decide⟩
   exact reachable_runSched Reachable.init [.step 0, .step 0, .step 0, .step 1, .step 1] (by decide)
 
 /-- … hence what receivers got from a buffered channel is a prefix of what was sent, in send order -/
-theorem no_dup_no_loss_buffered {caps : List Nat} {progs : List (List Op)} {s : State}
-    (h : Reachable (init caps progs) s) (c : Cid) (hc : 0 < (s.chan c).cap) :
+theorem no_dup_no_loss_buffered {cfg : Cfg} {caps : List Nat} {progs : List (List Op)} {s : State}
+    (h : Reachable (init cfg caps progs) s) (c : Cid) (hc : 0 < (s.chan c).cap) :
     (s.chan c).recvd <+: (s.chan c).sent :=
   ⟨_, (fifo_buffered h c hc).symm⟩
 
 /-- the ring always holds exactly `len` values -/
-theorem contents_length {caps : List Nat} {progs : List (List Op)} {s : State}
-    (_h : Reachable (init caps progs) s) (c : Cid) : (s.chan c).contents.length = (s.chan c).len := by
+theorem contents_length {cfg : Cfg} {caps : List Nat} {progs : List (List Op)} {s : State}
+    (_h : Reachable (init cfg caps progs) s) (c : Cid) : (s.chan c).contents.length = (s.chan c).len := by
   have : ∀ (d : List Val) (cap n g : Nat), (ringFrom d cap g n).length = n := by
     intro d cap n; induction n with
     | zero => intro g; rfl
@@ -48,8 +48,8 @@ theorem contents_length {caps : List Nat} {progs : List (List Op)} {s : State}
 
 /-- unbuffered hand-off: every value a sender committed was copied into exactly one armed receiver's variable
     (whether that receiver then REPORTS it is another matter: see `no_loss_counterexample`) -/
-theorem unbuffered_handoff_exact {caps : List Nat} {progs : List (List Op)} {s : State}
-    (h : Reachable (init caps progs) s) (c : Cid) (hc : (s.chan c).cap = 0) :
+theorem unbuffered_handoff_exact {cfg : Cfg} {caps : List Nat} {progs : List (List Op)} {s : State}
+    (h : Reachable (init cfg caps progs) s) (c : Cid) (hc : (s.chan c).cap = 0) :
     (s.chan c).sent = (s.chan c).recvd ∧ (s.chan c).len = 0 :=
   ⟨(reachable_ginv h c).unb_hist hc, (reachable_ginv h c).unb_len hc⟩
 
@@ -62,8 +62,8 @@ theorem closed_stable (p : Point) (t : Tid) (ch : Chan) (h : ch.closed = true) :
   case recvLock c sl => unfold recvLoop; split <;> (try split) <;> (try split) <;> simp_all [Chan.pop]
   case recvWaitU c sl => unfold recvLoop; split <;> (try split) <;> (try split) <;> simp_all [Chan.pop]
   case recvWaitB c sl => unfold recvLoop; split <;> (try split) <;> (try split) <;> simp_all [Chan.pop]
-  case recv2Lock c b => unfold recv2Loop; split <;> simp_all
-  case recv2Wait c b => unfold recv2Loop; split <;> simp_all
+  case recv2Lock c b sq => unfold recv2Loop; split <;> (split <;> simp_all)
+  case recv2Wait c b sq => unfold recv2Loop; split <;> (split <;> simp_all)
   case closeLock c => unfold closeBody; split <;> simp_all
   case trySendLock c v => unfold trySendBody; split <;> (try split) <;> simp_all [Chan.push, Chan.handOff]
   case tryRecvLock c sl a => unfold tryRecvBody; split <;> (try split) <;> (try split) <;> simp_all [Chan.pop]
@@ -76,8 +76,8 @@ def Point.secondPhase : Point → Bool
   | _ => false
 
 /-- … indeed a critical section asks for the second phase only on an unbuffered channel -/
-theorem second_phase_only_unbuffered (p : Point) (t : Tid) (ch : Chan) (bc try_ : Bool)
-    (h : (body p t ch).out = .notify (.finish bc (.recv2 try_))) : ch.cap = 0 := by
+theorem second_phase_only_unbuffered (p : Point) (t : Tid) (ch : Chan) (bc try_ : Bool) (seq : Nat)
+    (h : (body p t ch).out = .notify (.finish bc (.recv2 try_ seq))) : ch.cap = 0 := by
   cases p <;> simp only [body] at h
   case sendLock c v => unfold sendLoop at h; split at h <;> (try split at h) <;> (try split at h) <;> simp_all <;> (split at h <;> simp_all)
   case sendWaitU c v => unfold sendLoop at h; split at h <;> (try split at h) <;> (try split at h) <;> simp_all <;> (split at h <;> simp_all)
@@ -85,8 +85,8 @@ theorem second_phase_only_unbuffered (p : Point) (t : Tid) (ch : Chan) (bc try_ 
   case recvLock c sl => unfold recvLoop at h; split at h <;> (try split at h) <;> (try split at h) <;> simp_all
   case recvWaitU c sl => unfold recvLoop at h; split at h <;> (try split at h) <;> (try split at h) <;> simp_all
   case recvWaitB c sl => unfold recvLoop at h; split at h <;> (try split at h) <;> (try split at h) <;> simp_all
-  case recv2Lock c b' => unfold recv2Loop at h; split at h <;> simp_all
-  case recv2Wait c b' => unfold recv2Loop at h; split at h <;> simp_all
+  case recv2Lock c b' sq => unfold recv2Loop at h; split at h <;> (split at h <;> simp_all)
+  case recv2Wait c b' sq => unfold recv2Loop at h; split at h <;> (split at h <;> simp_all)
   case closeLock c => unfold closeBody at h; split at h <;> simp_all
   case trySendLock c v => unfold trySendBody at h; split at h <;> (try split at h) <;> simp_all
   case tryRecvLock c sl a => unfold tryRecvBody at h; split at h <;> (try split at h) <;> (try split at h) <;> simp_all
@@ -108,12 +108,12 @@ theorem recv_after_close (p : Point) (t : Tid) (ch : Chan) (hinv : ChanInv ch) (
   case recvLock c sl => unfold recvLoop at h; split at h <;> (try split at h) <;> (try split at h) <;> simp_all
   case recvWaitU c sl => unfold recvLoop at h; split at h <;> (try split at h) <;> (try split at h) <;> simp_all
   case recvWaitB c sl => unfold recvLoop at h; split at h <;> (try split at h) <;> (try split at h) <;> simp_all
-  case recv2Lock c b' =>
+  case recv2Lock c b' sq =>
     have hc := hu (hp2 rfl)
-    unfold recv2Loop at h; split at h <;> (try split at h) <;> simp_all
-  case recv2Wait c b' =>
+    unfold recv2Loop at h; split at h <;> (try split at h) <;> (try split at h) <;> simp_all
+  case recv2Wait c b' sq =>
     have hc := hu (hp2 rfl)
-    unfold recv2Loop at h; split at h <;> (try split at h) <;> simp_all
+    unfold recv2Loop at h; split at h <;> (try split at h) <;> (try split at h) <;> simp_all
   case closeLock c => unfold closeBody at h; split at h <;> simp_all
   case trySendLock c v => unfold trySendBody at h; split at h <;> (try split at h) <;> simp_all
   case tryRecvLock c sl a => unfold tryRecvBody at h; split at h <;> (try split at h) <;> (try split at h) <;> simp_all
@@ -125,8 +125,8 @@ theorem recv_after_close (p : Point) (t : Tid) (ch : Chan) (hinv : ChanInv ch) (
 /-- mutual exclusion: under every schedule at most one thread is inside the critical section of a channel
     (`notifyOps` is the only place where a thread reaches a scheduling point while holding `p.mutex`), and
     that thread is the recorded owner of the mutex -/
-theorem mutex_exclusive {caps : List Nat} {progs : List (List Op)} {s : State}
-    (h : Reachable (init caps progs) s) (t1 t2 : Tid) (c : Cid) (hc : c < s.owner.length)
+theorem mutex_exclusive {cfg : Cfg} {caps : List Nat} {progs : List (List Op)} {s : State}
+    (h : Reachable (init cfg caps progs) s) (t1 t2 : Tid) (c : Cid) (hc : c < s.owner.length)
     (h1 : (s.thread t1).pc.inCS c = true) (h2 : (s.thread t2).pc.inCS c = true) : t1 = t2 := by
   have a := reachable_mutexInv h t1 c h1 hc
   have b := reachable_mutexInv h t2 c h2 hc
@@ -134,18 +134,18 @@ theorem mutex_exclusive {caps : List Nat} {progs : List (List Op)} {s : State}
   exact Option.some.inj b
 
 /-- a thread waiting at `p.mutex.Lock()` of a channel whose critical section is occupied is not runnable -/
-theorem mutex_blocks {caps : List Nat} {progs : List (List Op)} {s : State}
-    (h : Reachable (init caps progs) s) (t1 t2 : Tid) (p : Point) (hc : p.chan < s.owner.length)
+theorem mutex_blocks {cfg : Cfg} {caps : List Nat} {progs : List (List Op)} {s : State}
+    (h : Reachable (init cfg caps progs) s) (t1 t2 : Tid) (p : Point) (hc : p.chan < s.owner.length)
     (h1 : (s.thread t1).pc.inCS p.chan = true) (h2 : (s.thread t2).pc = .at p) : runnable s t2 = false := by
   have a := reachable_mutexInv h t1 p.chan h1 hc
   simp [runnable, h2, wantedChan, a]
 
 /-- the hypotheses are satisfiable: a sender that found no receiver is inside `notifyOps` (waking a registered
     select) while it holds the mutex of channel 0 -/
-example : ∃ s, Reachable (init [0] [[.select [⟨0, false, 0⟩] true], [.send 0 1]]) s ∧
+example : ∃ s, Reachable (init .current [0] [[.select [⟨0, false, 0⟩] true], [.send 0 1]]) s ∧
     (s.thread 1).pc.inCS 0 = true ∧ 0 < s.owner.length := by
-  refine ⟨(runSched (init [0] [[.select [⟨0, false, 0⟩] true], [.send 0 1]])
-      [.step 0, .step 0, .step 1, .step 1]).getD (init [] []), ?_, by decide, by decide⟩
+  refine ⟨(runSched (init .current [0] [[.select [⟨0, false, 0⟩] true], [.send 0 1]])
+      [.step 0, .step 0, .step 1, .step 1]).getD (init .current [] []), ?_, by decide, by decide⟩
   exact reachable_runSched Reachable.init [.step 0, .step 0, .step 1, .step 1] (by decide)
 
 /-! ## select -/
@@ -188,33 +188,34 @@ theorem select_commit_records_polled_case (th : Thread) (sl : Sel) (ok : Bool) (
 example : ∃ sl : Sel, sl.blocking = true ∧ sl.cases = [⟨0, true, 5⟩] :=
   ⟨{ cases := [⟨0, true, 5⟩], blocking := true, sendFirst := true, pass := 0, idx := 0, result := none }, rfl, rfl⟩
 
-example : ChanInv (newChan 0) ∧ (Point.recvLock 0 0).secondPhase = false ∧
-    (body (.recvLock 0 0) 0 { newChan 0 with closed := true }).out = .unlock (.recv false) := by
-  refine ⟨newChan_inv 0, rfl, ?_⟩; decide
+example : ChanInv (newChan .current 0) ∧ (Point.recvLock 0 0).secondPhase = false ∧
+    (body (.recvLock 0 0) 0 { newChan .current 0 with closed := true }).out = .unlock (.recv false) := by
+  refine ⟨newChan_inv .current 0, rfl, ?_⟩; decide
 
-example : (trySendBody { newChan 1 with } 7).out = .notify (.finish true (.ret (.trySend true))) := by decide
-example : ∃ ok, (tryRecvBody ((newChan 1).push 7) ⟨0, 0⟩ true).out = .notify (.finish true (.ret (.tryRecv ok true))) :=
+example : (trySendBody { newChan .current 1 with } 7).out = .notify (.finish true (.ret (.trySend true))) := by decide
+example : ∃ ok, (tryRecvBody ((newChan .current 1).push 7) ⟨0, 0⟩ true).out = .notify (.finish true (.ret (.tryRecv ok true))) :=
   ⟨true, by decide⟩
 
 /-! ## wake-ups -/
 
 /-- no lost wake-up at the source: a critical section that changes anything a `Cond.Wait` loop tests
-    (`len`, `close`, `getp`) is followed — after `notifyOps`, before anything else — by
+    (`len`, `close`, `getp`, `recvseq`) is followed — after `notifyOps`, before anything else — by
     `p.mutex.Unlock(); p.cond.Broadcast()` -/
 theorem wakeup_follows_change (p : Point) (t : Tid) (ch : Chan)
-    (h : (body p t ch).ch.len ≠ ch.len ∨ (body p t ch).ch.closed ≠ ch.closed ∨ (body p t ch).ch.getp ≠ ch.getp) :
+    (h : (body p t ch).ch.len ≠ ch.len ∨ (body p t ch).ch.closed ≠ ch.closed ∨ (body p t ch).ch.getp ≠ ch.getp ∨
+      (body p t ch).ch.recvseq ≠ ch.recvseq) :
     ∃ n, (body p t ch).out = .notify (.finish true n) :=
   body_change_broadcasts p t ch h
 
-example : (body (.closeLock 0) 0 (newChan 1)).ch.closed ≠ (newChan 1).closed := by decide
+example : (body (.closeLock 0) 0 (newChan .current 1)).ch.closed ≠ (newChan .current 1).closed := by decide
 
 /-- PARTIAL liveness (what holds of `NoStuckPair`): on a BUFFERED channel whose mutex is free, a sender asleep in
     `ChanSend`'s `for p.len == n { Wait }` and a receiver asleep in `ChanRecv`'s `for p.len == 0 { Wait }` never
     coexist — under every schedule, with spurious wake-ups, for any number of threads.  (Invariant `WaitInv`,
     `Lemmas/ChanLive.lean`: a thread asleep in one of these loops still has its wait condition true unless a
     `Broadcast` on the channel is pending.)  The decidable hypotheses: the channel exists and its mutex is free. -/
-theorem no_stuck_pair_partial {caps : List Nat} {progs : List (List Op)} {s : State}
-    (h : Reachable (init caps progs) s) (c : Cid) (hc : c < s.owner.length) (hfree : s.own c = none)
+theorem no_stuck_pair_partial {cfg : Cfg} {caps : List Nat} {progs : List (List Op)} {s : State}
+    (h : Reachable (init cfg caps progs) s) (c : Cid) (hc : c < s.owner.length) (hfree : s.own c = none)
     (t1 t2 : Tid) (v : Val) (sl : Nat)
     (h1 : (s.thread t1).pc = .at (.sendWaitB c v)) (w1 : (s.thread t1).waiting = true)
     (h2 : (s.thread t2).pc = .at (.recvWaitB c sl)) (w2 : (s.thread t2).waiting = true) : False := by
@@ -227,24 +228,24 @@ theorem no_stuck_pair_partial {caps : List Nat} {progs : List (List Op)} {s : St
 
 /-- … in particular the second disjunct of `parkedPair` (buffered pair) is unreachable with a free mutex, and a
     parked buffered sender means the buffer is full, a parked buffered receiver means it is empty -/
-theorem parked_sender_sees_full {caps : List Nat} {progs : List (List Op)} {s : State}
-    (h : Reachable (init caps progs) s) (c : Cid) (hc : c < s.owner.length) (hfree : s.own c = none)
+theorem parked_sender_sees_full {cfg : Cfg} {caps : List Nat} {progs : List (List Op)} {s : State}
+    (h : Reachable (init cfg caps progs) s) (c : Cid) (hc : c < s.owner.length) (hfree : s.own c = none)
     (t : Tid) (v : Val) (h1 : (s.thread t).pc = .at (.sendWaitB c v)) (w1 : (s.thread t).waiting = true) :
     (s.chan c).len = (s.chan c).cap ∧ (s.chan c).cap ≠ 0 := by
   obtain ⟨hw, hm⟩ := reachable_waitInv h
   exact (hw.cond t _ h1 w1 hc).resolve_right (not_busy_of_free hm hc hfree)
 
-theorem parked_receiver_sees_empty {caps : List Nat} {progs : List (List Op)} {s : State}
-    (h : Reachable (init caps progs) s) (c : Cid) (hc : c < s.owner.length) (hfree : s.own c = none)
+theorem parked_receiver_sees_empty {cfg : Cfg} {caps : List Nat} {progs : List (List Op)} {s : State}
+    (h : Reachable (init cfg caps progs) s) (c : Cid) (hc : c < s.owner.length) (hfree : s.own c = none)
     (t : Tid) (sl : Nat) (h1 : (s.thread t).pc = .at (.recvWaitB c sl)) (w1 : (s.thread t).waiting = true) :
     (s.chan c).len = 0 ∧ (s.chan c).cap ≠ 0 := by
   obtain ⟨hw, hm⟩ := reachable_waitInv h
   exact (hw.cond t _ h1 w1 hc).resolve_right (not_busy_of_free hm hc hfree)
 
 /-- the hypotheses are satisfiable: a sender parked on a full buffer of capacity 1 with the mutex free -/
-example : ∃ s, Reachable (init [1] [[.send 0 5, .send 0 6]]) s ∧ 0 < s.owner.length ∧ s.own 0 = none ∧
+example : ∃ s, Reachable (init .current [1] [[.send 0 5, .send 0 6]]) s ∧ 0 < s.owner.length ∧ s.own 0 = none ∧
     (s.thread 0).pc = .at (.sendWaitB 0 6) ∧ (s.thread 0).waiting = true := by
-  refine ⟨(runSched (init [1] [[.send 0 5, .send 0 6]]) [.step 0, .step 0, .step 0]).getD (init [] []), ?_,
+  refine ⟨(runSched (init .current [1] [[.send 0 5, .send 0 6]]) [.step 0, .step 0, .step 0]).getD (init .current [] []), ?_,
     by decide, by decide, by decide, by decide⟩
   exact reachable_runSched Reachable.init [.step 0, .step 0, .step 0] (by decide)
 
@@ -254,7 +255,7 @@ example : ∃ s, Reachable (init [1] [[.send 0 5, .send 0 6]]) s ∧ 0 < s.owner
     the channel has since been armed AGAIN, for another thread's variable -/
 def servedButParked (s : State) (t : Tid) : Bool :=
   match (s.thread t).pc with
-  | .at (.recv2Wait c _) =>
+  | .at (.recv2Wait c _ _) =>
     (s.thread t).waiting && (s.chan c).getp == hasRecv &&
       (match (s.chan c).slot with | some tg => tg.tid != t | none => false)
   | _ => false
@@ -275,16 +276,16 @@ def stuck (s : State) : Bool :=
 
 /-- FULL STATEMENT (false, see below): no group of threads remains blocked while two of their pending
     operations could complete together -/
-def NoStuckPair : Prop :=
-  ∀ (caps : List Nat) (progs : List (List Op)) (s : State), Reachable (init caps progs) s → stuck s = false
+def NoStuckPair (cfg : Cfg) : Prop :=
+  ∀ (caps : List Nat) (progs : List (List Op)) (s : State), Reachable (init cfg caps progs) s → stuck s = false
 
 def stallProgs : List (List Op) := [[.recv 0], [.recv 0], [.send 0 42]]
 /-- R1,R1,R1, S,S, R2,R2,R2, R1 -/
 def stallSched : List Choice :=
   [.step 0, .step 0, .step 0, .step 2, .step 2, .step 1, .step 1, .step 1, .step 0]
-def stallState : State := (runSched (init [0] stallProgs) stallSched).getD (init [] [])
+def stallState : State := (runSched (init .current [0] stallProgs) stallSched).getD (init .current [] [])
 
-theorem stall_run : runSched (init [0] stallProgs) stallSched = some stallState := by decide
+theorem stall_run : runSched (init .current [0] stallProgs) stallSched = some stallState := by decide
 
 /-- two receivers on one unbuffered channel and one sender: the sender has returned, 42 sits in the first
     receiver's variable, both receivers sleep in `Cond.Wait`, no thread is runnable -/
@@ -293,9 +294,9 @@ theorem stall_facts :
     (stallState.thread 0).res = [] ∧ (stallState.thread 0).waiting = true ∧ (stallState.thread 1).waiting = true := by
   decide
 
-theorem no_stuck_pair_counterexample : ¬ NoStuckPair := by
+theorem no_stuck_pair_counterexample : ¬ NoStuckPair .current := by
   intro h
-  have hr := reachable_runSched (Reachable.init (s0 := init [0] stallProgs)) stallSched stall_run
+  have hr := reachable_runSched (Reachable.init (s0 := init .current [0] stallProgs)) stallSched stall_run
   have := h [0] stallProgs stallState hr
   revert this
   decide
@@ -308,27 +309,96 @@ def okValues (s : State) : List Val :=
     | .sel _ v true _ => some v
     | _ => none
 
-def NoLoss : Prop :=
-  ∀ (caps : List Nat) (progs : List (List Op)) (s : State), Reachable (init caps progs) s → allDone s = true →
+def NoLoss (cfg : Cfg) : Prop :=
+  ∀ (caps : List Nat) (progs : List (List Op)) (s : State), Reachable (init cfg caps progs) s → allDone s = true →
     ∀ ch ∈ s.chans, ∀ v ∈ ch.sent, v ∈ okValues s ∨ v ∈ ch.contents
 
 def lossProgs : List (List Op) := [[.recv 0], [.send 0 42, .close 0]]
 /-- R,R,R (armed, parked), S,S (hand-off), S (close), R (wakes: `recvOK = !p.close = false`) -/
 def lossSched : List Choice := [.step 0, .step 0, .step 0, .step 1, .step 1, .step 1, .step 0]
-def lossState : State := (runSched (init [0] lossProgs) lossSched).getD (init [] [])
+def lossState : State := (runSched (init .current [0] lossProgs) lossSched).getD (init .current [] [])
 
-theorem loss_run : runSched (init [0] lossProgs) lossSched = some lossState := by decide
+theorem loss_run : runSched (init .current [0] lossProgs) lossSched = some lossState := by decide
 
 /-- send then close on an unbuffered channel: the send completed, the receiver returns `(42, ok = false)` -/
 theorem loss_facts :
     allDone lossState = true ∧ (lossState.thread 1).res = [.sent, .closed] ∧ (lossState.thread 0).res = [.recv 42 false] := by
   decide
 
-theorem no_loss_counterexample : ¬ NoLoss := by
+theorem no_loss_counterexample : ¬ NoLoss .current := by
   intro h
-  have hr := reachable_runSched (Reachable.init (s0 := init [0] lossProgs)) lossSched loss_run
+  have hr := reachable_runSched (Reachable.init (s0 := init .current [0] lossProgs)) lossSched loss_run
   have := h [0] lossProgs lossState hr (by decide)
   revert this
   decide
+
+/-! ## the `fixed` variant (`fixes/C10-1.diff`: hand-off counter `recvseq`)
+
+All theorems above are generic in `cfg`; the two counterexamples are about `Cfg.current`.  With the counter: -/
+
+def stallStateFixed : State := (runSched (init .fixed [0] stallProgs) stallSched).getD (init .fixed [] [])
+theorem stall_fixed_run : runSched (init .fixed [0] stallProgs) stallSched = some stallStateFixed := by decide
+
+/-- the schedule of `no_stuck_pair_counterexample` no longer stalls: the first receiver returns `(42, true)` and is
+    done; the state is not `stuck` (the second receiver waits legitimately: there is no second send) -/
+theorem stall_fixed_facts :
+    stuck stallStateFixed = false ∧ (stallStateFixed.thread 0).pc = .done ∧
+    (stallStateFixed.thread 0).res = [.recv 42 true] ∧ (stallStateFixed.thread 2).res = [.sent] ∧
+    (stallStateFixed.thread 1).res = [] := by
+  decide
+
+def lossStateFixed : State := (runSched (init .fixed [0] lossProgs) lossSched).getD (init .fixed [] [])
+theorem loss_fixed_run : runSched (init .fixed [0] lossProgs) lossSched = some lossStateFixed := by decide
+
+/-- the schedule of `no_loss_counterexample` no longer loses the value: `(42, ok = true)` although the channel was
+    closed between the hand-off and the receiver's wake-up -/
+theorem loss_fixed_facts :
+    allDone lossStateFixed = true ∧ (lossStateFixed.thread 0).res = [.recv 42 true] ∧
+    (lossStateFixed.thread 1).res = [.sent, .closed] ∧
+    (∀ ch ∈ lossStateFixed.chans, ∀ v ∈ ch.sent, v ∈ okValues lossStateFixed ∨ v ∈ ch.contents) := by
+  decide
+
+/-- fixed variant, second phase of a receive: the result is `ok = (recvseq ≠ seq)` — whether a hand-off happened since
+    the receiver armed the channel — and no longer depends on the close flag; `ok = false` only if NO hand-off
+    happened and the channel is closed -/
+theorem recv_ok_iff_served_fixed (ch : Chan) (c : Cid) (seq : Nat) (hf : ch.fixed = true) :
+    (ch.recvseq ≠ seq → (recv2Loop ch c false seq).out = .unlock (.recv true)) ∧
+    ((recv2Loop ch c false seq).out = .unlock (.recv false) → ch.recvseq = seq ∧ ch.closed = true) ∧
+    (ch.recvseq ≠ seq → (recv2Loop ch c true seq).out = .unlock (.tryRecv true true)) := by
+  unfold recv2Loop
+  simp only [hf, if_true]
+  refine ⟨fun h => ?_, fun h => ?_, fun h => ?_⟩
+  · simp [h]
+  · split at h <;> simp_all
+  · simp [h]
+
+example : ({ newChan .fixed 0 with recvseq := 1 } : Chan).fixed = true ∧ ({ newChan .fixed 0 with recvseq := 1 } : Chan).recvseq ≠ 0 := by
+  decide
+
+/-- a hand-off increments the counter of a fixed channel (and `recvseq_mono`: nothing ever decreases it), so a receiver
+    that armed at `seq` and was served sees `recvseq > seq` for ever after -/
+theorem handoff_bumps_fixed (ch : Chan) (v : Val) (hf : ch.fixed = true) : (ch.handOff v).1.recvseq = ch.recvseq + 1 := by
+  unfold Chan.handOff Chan.bump
+  split <;> simp [hf]
+
+/-- the hand-off part of `NoStuckPair`, as a theorem for the fixed variant: under every schedule, with spurious
+    wake-ups, for any number of threads — a receiver asleep in the second phase on a channel whose mutex is free has NOT
+    been served (`recvseq = seq`) and the channel is open.  A receiver whose value was delivered, or whose channel was
+    closed, is never left asleep (the state of `stall_facts` is unreachable). -/
+theorem served_receiver_not_parked_fixed {caps : List Nat} {progs : List (List Op)} {s : State}
+    (h : Reachable (init .fixed caps progs) s) (c : Cid) (hc : c < s.owner.length) (hc' : c < s.chans.length)
+    (hfree : s.own c = none) (t : Tid) (b : Bool) (seq : Nat)
+    (h1 : (s.thread t).pc = .at (.recv2Wait c b seq)) (w1 : (s.thread t).waiting = true) :
+    (s.chan c).recvseq = seq ∧ (s.chan c).closed = false := by
+  obtain ⟨hw, hm⟩ := reachable_waitInv h
+  have hfix : (s.chan c).fixed = true := reachable_fixInv h c hc'
+  exact (hw.cond t _ h1 w1 hc).resolve_right (not_busy_of_free hm hc hfree) hfix
+
+/-- the hypotheses are satisfiable: an armed, unserved receiver asleep in the second phase -/
+example : ∃ s, Reachable (init .fixed [0] [[.recv 0]]) s ∧ 0 < s.owner.length ∧ 0 < s.chans.length ∧ s.own 0 = none ∧
+    (s.thread 0).pc = .at (.recv2Wait 0 false 0) ∧ (s.thread 0).waiting = true := by
+  refine ⟨(runSched (init .fixed [0] [[.recv 0]]) [.step 0, .step 0, .step 0]).getD (init .fixed [] []), ?_,
+    by decide, by decide, by decide, by decide, by decide⟩
+  exact reachable_runSched Reachable.init [.step 0, .step 0, .step 0] (by decide)
 
 end LlgoVerif.Chan
